@@ -1066,6 +1066,9 @@ func TestCheck(t *testing.T) {
 			}
 			cfg.Cloud, cfg.Jumbo = rng.Intn(2) == 0, rng.Intn(2) == 0
 			cfg.Static = [][]string{nil, nil, {"st:1"}, {"env:prod", "dc:x"}, {"dup", "zone:9"}}[rng.Intn(5)]
+			if cfg.Jumbo && cfg.Batches > 60 {
+				cfg.Batches = 60 // a jumbo datagram carries up to 2000 lines: keeps the longest execution near a minute
+			}
 			runServerExecution(t, r, cfg)
 		} else {
 			cfg.Mode = "pipeline"
